@@ -28,6 +28,8 @@ structure Entry where
   chan : Nat
   pos : Int
   count : Int
+  /-- the user a (non-channel) message refers to (0: none): its access hash must be known -/
+  user : Nat := 0
   deriving DecidableEq, Repr
 
 /-- The `update` handed to the sequence box for an entry (`Value` = the entry id). -/
